@@ -432,7 +432,7 @@ def cap_integer_widths(text):
     """-> (text', n). Integer types wider than 6 digits (iN, siN, uiN with N >= 10^6; MLIR's limit is 2^24)
     outside string literals and comments are cut to 6 digits: building their value range allocates N bits per
     big-int operation, so the cost follows the width written in the text (memory-bound: seconds on a loaded
-    machine from 10^7 bits on, un-interruptible when N approaches the memory limit; see out/fixes/C07-16.diff)."""
+    machine from 10^7 bits on, un-interruptible when N approaches the memory limit; see known_findings/proposed_fixes/C07-16.diff)."""
     out, pos, n = [], 0, 0
     for m in _STRIP.finditer(text):
         seg, k = _WIDE_INT_TYPE.subn(r"\1\2", text[pos:m.start()])
